@@ -244,7 +244,7 @@ def matches_known(sig, prop, known):
     return None
 
 
-def run_check(prop, tier, verif_seed, nruns=None, nworkers=None, write_evidence=True):
+def run_check(prop, tier, verif_seed, nruns=None, nworkers=None, write_evidence=True, mutants=False):
     t0 = time.time()
     nworkers = nworkers or min(16, os.cpu_count() or 1)
     n = nruns or BUDGET[prop][tier]
@@ -318,8 +318,20 @@ def run_check(prop, tier, verif_seed, nruns=None, nworkers=None, write_evidence=
               sum(c for _, c in known_hits.values()), wall, rate / 1e6))
     print("  faults fired: %s | scheduled but not fired: %s" % (json.dumps(tot["faults"], sort_keys=True),
                                                                  json.dumps(tot["faults_missed"], sort_keys=True)))
+    kill = None
+    if mutants and not reported and os.path.exists(os.path.join(ROOT, "mutants", prop + ".json")):
+        # sensitivity self-test (thorough tier): the mutant suite against scratch copies, quick budget each.
+        # Reported in the evidence; a missed mutant is a note, never a verdict about /repo.
+        sys.path.insert(0, ROOT)
+        import tools_mutants
+
+        print("[%s] sensitivity suite (scratch copies of %s/nflows, VERIF_REPO) ..." % (prop, core.REPO))
+        sys.stdout.flush()
+        kill = tools_mutants.run_suite(prop, runs=max(2000, BUDGET[prop]["quick"] // 3), verbose=False)
+        missed = [k for k, v in kill.items() if not v["as_expected"]]
+        print("  mutants: %d, as expected: %d%s" % (len(kill), len(kill) - len(missed), (", NOT as expected: %s" % missed) if missed else ""))
     if write_evidence:
-        write_evidence_file(prop, tier, verif_seed, tot, wall, n, nworkers, len(self_idx), len(mism), reported, known_hits)
+        write_evidence_file(prop, tier, verif_seed, tot, time.time() - t0, n, nworkers, len(self_idx), len(mism), reported, known_hits, kill)
     return 1 if reported else 0
 
 
@@ -335,7 +347,7 @@ def verify_replay(path):
     return bool(info.get("reproduced") and info.get("digest_equal")), info
 
 
-def write_evidence_file(prop, tier, verif_seed, tot, wall, n, nworkers, self_pairs, self_mism, reported, known_hits):
+def write_evidence_file(prop, tier, verif_seed, tot, wall, n, nworkers, self_pairs, self_mism, reported, known_hits, kill=None):
     wc = worlds()[prop]
     ev = {
         "property_id": prop,
@@ -374,6 +386,7 @@ def write_evidence_file(prop, tier, verif_seed, tot, wall, n, nworkers, self_pai
             "real_components": wc.REAL,
             "stub_components": wc.STUB,
             "repo": core.REPO,
+            **({"mutants": kill} if kill is not None else {}),
         },
         "assumptions": wc.ASSUME,
     }
@@ -422,6 +435,7 @@ def main(argv=None):
     ap.add_argument("--runs", type=int)
     ap.add_argument("--workers", type=int)
     ap.add_argument("--no-evidence", action="store_true")
+    ap.add_argument("--no-mutants", action="store_true", help="thorough tier: skip the sensitivity suite")
     a = ap.parse_args(argv)
     try:
         if a.restart_server:
@@ -439,7 +453,8 @@ def main(argv=None):
         if not a.prop:
             ap.error("property id required")
         seed = int(os.environ.get("VERIF_SEED", "0") or 0)
-        return run_check(a.prop, a.tier, seed, a.runs, a.workers, write_evidence=not a.no_evidence)
+        return run_check(a.prop, a.tier, seed, a.runs, a.workers, write_evidence=not a.no_evidence,
+                         mutants=(a.tier == "thorough" and not a.no_mutants and not a.no_evidence))
     except core.HarnessError as e:
         print("HARNESS-ERROR %s" % (e,))
         return 2
